@@ -20,7 +20,8 @@ RAW_MUTATORS = RAW_WRITE_AT + RAW_STREAM_WRITE + RAW_SET_LEN + RAW_CREATE_TRUNC 
 
 PANICS = ('core::panicking::panic', 'core::panicking::panic_fmt', 'core::panicking::panic_display', 'core::panicking::unreachable_display',
           'std::rt::begin_panic', 'core::panicking::assert_failed', 'core::panicking::panic_explicit', 'std::rt::panic_fmt',
-          'core::panicking::panic_nounwind', 'std::process::abort', 'std::process::exit')
+          'core::panicking::panic_nounwind', 'std::process::abort', 'std::process::exit', 'std::panic::resume_unwind',
+          'std::panicking::resume_unwind', 'std::panic::panic_any', 'std::panicking::begin_panic')
 
 
 def base(path):
